@@ -3478,3 +3478,102 @@ func init() {
 	addDoc("C15", "R15q (= R12k) releases go through the owner.")
 	addDoc("C17", "R17i a freshly obtained node attached under a reader-held root is returned, stored in a holder field or released on every path before the next fetch or a return.")
 }
+
+// ---------------------------------------------------------------- pooled objects do not escape into asynchronous code
+
+// pooledNotCapturedAsync: an object that lives in a sync.Pool is exclusively the caller's only between Get and Put. A
+// closure that runs later or elsewhere — the argument of time.AfterFunc / time.After*, the function of a `go` statement —
+// and captures such an object can touch it after it went back to the pool and was handed to someone else (seed C14-14: a
+// watchdog timer that interrupts the runtime, not stopped on the error path). Pooled types are resolved by role: the
+// types that Pool.Get results are asserted to in the repository.
+func pooledNotCapturedAsync(c *core.Ctx, rule string) {
+	c.SSA()
+	pooled := map[string]bool{}
+	for _, f := range c.RepoFunctions() {
+		for _, ci := range core.Calls(f) {
+			call, ok := ci.(*ssa.Call)
+			if !ok || !poolGetCall(call) {
+				continue
+			}
+			for _, r := range core.Referrers(call) {
+				if ta, ok := r.(*ssa.TypeAssert); ok {
+					pooled[ta.AssertedType.String()] = true
+				}
+			}
+			// the Get result parked in a local variable first: assertions of empty-interface values in the same function
+			for _, bb := range f.Blocks {
+				for _, in2 := range bb.Instrs {
+					if ta, ok := in2.(*ssa.TypeAssert); ok {
+						if it, isIface := ta.X.Type().Underlying().(*types.Interface); isIface && it.NumMethods() == 0 {
+							if _, toIface := ta.AssertedType.Underlying().(*types.Interface); !toIface {
+								pooled[ta.AssertedType.String()] = true
+							}
+						}
+					}
+				}
+			}
+			if call.Type() != nil {
+				if _, isIface := call.Type().Underlying().(*types.Interface); !isIface {
+					pooled[call.Type().String()] = true
+				}
+			}
+		}
+	}
+	n := 0
+	for _, f := range c.RepoFunctions() {
+		if core.IsCLIOrSample(core.FuncPkg(f)) {
+			continue
+		}
+		check := func(mc *ssa.MakeClosure, at ssa.Instruction, how string) {
+			fn, _ := mc.Fn.(*ssa.Function)
+			for i, b := range mc.Bindings {
+				t := b.Type()
+				if p, ok := t.(*types.Pointer); ok {
+					if _, isAlloc := b.(*ssa.Alloc); isAlloc {
+						t = p.Elem() // a captured variable cell: the variable's type
+					}
+				}
+				if pooled[t.String()] {
+					n++
+					name := "?"
+					if fn != nil && i < len(fn.FreeVars) {
+						name = fn.FreeVars[i].Name()
+					}
+					c.Bad(rule, core.FuncKey(f)+" hands a pooled object to asynchronous code", core.InstrPos(at), "the closure "+how+" captures "+name+" ("+t.String()+"), an object that is recycled through a sync.Pool: it can run after the object went back to the pool and was handed to another caller")
+				}
+			}
+		}
+		for _, b := range f.Blocks {
+			for _, in := range b.Instrs {
+				switch x := in.(type) {
+				case *ssa.Go:
+					if mc, ok := x.Call.Value.(*ssa.MakeClosure); ok {
+						check(mc, in, "started with `go`")
+					}
+				case *ssa.Call:
+					if o := core.CalleeObj(x); o != nil && o.Pkg() != nil && o.Pkg().Path() == "time" && (o.Name() == "AfterFunc") {
+						for _, a := range x.Call.Args {
+							if mc, ok := a.(*ssa.MakeClosure); ok {
+								check(mc, in, "passed to time.AfterFunc")
+							}
+						}
+					}
+				}
+			}
+		}
+	}
+	c.OK(rule, "pooled objects stay out of asynchronous closures", 0, fmt.Sprintf("%d pooled type(s) resolved; %d capture(s) by go / time.AfterFunc closures", len(pooled), n))
+}
+
+func init() {
+	for _, pr := range [][2]string{{"C14", "R14j"}, {"C20", "R20k"}, {"C13", "R13k"}} {
+		pr := pr
+		wrapRun(pr[0], func(c *core.Ctx) {
+			if c.CountRule(pr[1]) == 0 {
+				pooledNotCapturedAsync(c, pr[1])
+			}
+		})
+		addDoc(pr[0], pr[1]+" no closure started with `go` or passed to time.AfterFunc captures an object of a pooled type.")
+	}
+	addDoc("C20", "R20a ext.: every goja Runtime.Set* configuration call is in the function that runs the program (a runtime configured in the pool's New differs from the uncached one).")
+}
